@@ -11,7 +11,7 @@ manifestation.  Oracle: the reference object model in mon/ref/interp.py.
 import itertools
 import json
 
-from .. import runner
+from .. import runner, sanit
 from ..common import outcome, strict_json, deep_equal, panic_sig
 from ..gen import prog
 from ..ref import interp, jast
@@ -233,6 +233,9 @@ def run(tier, seed, t0):
     acc = runner.Acc()
     for a in accs:
         acc.merge(a)
+    # object identity (WeakObjValue hashing reads a Weak as an integer), the per-(object, layer) value cache and
+    # the cached object-local contexts under the memory monitors
+    sanit.run_pass(acc, PROP, tier, seed, quick={"asan": 160}, thorough={"asan": 2400, "memcheck": 480, "miri": 256})
     return runner.finish(
         PROP, tier, seed, "exploration", acc, t0,
         rule="exhaustive: every 1- and 2-layer chain over names {a,b} x %d member kinds per name (absent, plain, "
